@@ -297,7 +297,22 @@ func (sp *Specs) loadFile(path string, commentOnly bool) error {
 			var callee string
 			k := 0
 			body := fs[1]
-			if fs[0] == "call" {
+			if fs[0] == "read" {
+				// at read Type.field#k assert ...   (k-th load of that field, in static order)
+				gs := strings.SplitN(strings.TrimSpace(body), " ", 2)
+				if len(gs) < 2 {
+					return fail(fmt.Errorf("bad at read clause"))
+				}
+				callee = "$read:" + gs[0]
+				if i := strings.LastIndex(callee, "#"); i >= 0 {
+					k, err = strconv.Atoi(callee[i+1:])
+					if err != nil {
+						return fail(err)
+					}
+					callee = callee[:i]
+				}
+				body = strings.TrimSpace(gs[1])
+			} else if fs[0] == "call" {
 				gs := strings.SplitN(strings.TrimSpace(body), " ", 2)
 				if len(gs) < 2 {
 					return fail(fmt.Errorf("bad at call clause"))
